@@ -84,6 +84,8 @@ def label(e):
         return "LSaveRaise"
     if k == "interrupt":
         return "LInterrupt"
+    if k == "uptime":
+        return f"(LUptime {cb(e[2])})"
     if k == "launch_done":
         return f"(LLaunchDone {cb(not str(e[2]).startswith('returned'))})"
     return "LOther"
